@@ -43,6 +43,10 @@ def post(ctx, behs):
             if k % 3 == 0:
                 b["cfg"]["chain"] = True
             # harness-only data dimensions (the model is independent of spelling and error text)
+            # the rewriting is done by a real pipeline's replace_rcpt (global / source / destination scope) in front
+            # of the queue on three of four behaviours with rewritten recipients, by the harness on the fourth
+            if b["cfg"].get("rw") and not b["cfg"].get("caseVar"):   # (replace_rcpt looks keys up case-insensitively)
+                b["cfg"]["front"] = ["global", "source", "dest", ""][k % 4]
             b["cfg"]["idn"] = k % 2 == 0
             b["cfg"]["errtext"] = ["", "multiline", "nonascii"][k % 3 if k % 5 else 2]
 
